@@ -914,26 +914,38 @@ pub fn run_w3(ctx: &Ctx, nslots: usize, cycles: u64, mode: u8, cov: &mut Cov) ->
             }
         } else if mode == 3 {
             // one remove_subtree call frees [fresh companion, worn-out node, fresh companion] in pre-order
-            let j = (cyc as usize / 2) % (comp.len() - 1);
-            let (c1, c2, w) = (comp[j], comp[j + 1], cur[k]);
+            let j = (cyc as usize / 2) % (comp.len() - 2);
+            let (c1, c2, c3, w) = (comp[j], comp[j + 1], comp[j + 2], cur[k]);
             let worn_slot = hist[w].1;
-            let (i1, i2, iw) = (hist[c1].0, hist[c2].0, hist[w].0);
+            let (i1, i2, i3, iw) = (hist[c1].0, hist[c2].0, hist[c3].0, hist[w].0);
+            // c1 -> [c2, w], w -> [c3]: the worn-out node has a previous sibling and a child
             let r = guarded(|| {
-                i1.append(iw, &mut arena);
                 i1.append(i2, &mut arena);
+                i1.append(iw, &mut arena);
+                iw.append(i3, &mut arena);
                 i1.remove_subtree(&mut arena);
             });
             if let Err(p) = r {
                 return viol("remove_subtree-panic", p, cyc);
             }
-            for i in [c1, w, c2] {
+            if ctx.is("C12") {
+                for (name, id) in [("subtree root", i1), ("first child", i2), ("worn-out second child", iw), ("grandchild", i3)] {
+                    let n = &arena[id];
+                    let links = [n.parent(), n.previous_sibling(), n.next_sibling(), n.first_child(), n.last_child()];
+                    if !n.is_removed() || links.iter().any(|l| l.is_some()) {
+                        return viol("removed-keeps-links", format!("after remove_subtree the {} (slot {}, re-issued {} times) reports removed = {} and links {:?}", name, usize::from(id), recycles[usize::from(id) - 1], n.is_removed(), links.iter().map(|l| l.map(usize::from)).collect::<Vec<_>>()), cyc);
+                    }
+                }
+                evals += 20;
+            }
+            for i in [c1, c2, w, c3] {
                 hist[i].2 = true;
                 if !retired.contains(&hist[i].1) {
                     free.push(hist[i].1);
                 }
             }
             let mut got = Vec::new();
-            for _ in 0..3 {
+            for _ in 0..4 {
                 match alloc(&mut arena, None, &mut hist, &mut issued, &mut recycles, &mut retired, &mut free, cyc) {
                     Ok(i) => got.push(i),
                     Err(v) => return v,
@@ -945,6 +957,7 @@ pub fn run_w3(ctx: &Ctx, nslots: usize, cycles: u64, mode: u8, cov: &mut Cov) ->
             cur[k] = got[0];
             comp[j] = got[1];
             comp[j + 1] = got[2];
+            comp[j + 2] = got[3];
         } else if companions {
             // free the churned node and one rarely used companion (order alternates), then allocate twice
             let j = (cyc as usize / 2) % comp.len();
